@@ -17,8 +17,8 @@ CHECKS = {
  "C05": ("exploration",
          "bounded exhaustive enumeration of (width, value, bounds, bound form, written value) tuples vs bit-level integer definitions",
          "Every read/write of every slice and index with bounds in {None,-2..n+2} (given as int and as Bits) on every value of widths 1..5 (7 thorough), "
-         "boundary bounds on widths 8..1023, all concat tuples of <=3 operands of widths 1..3, all zext/sext/trunc (n,m) pairs, reduce ops on all values "
-         "of widths 1..8 and clog2 on 1..2^17 (2^20) plus 2^k-1,2^k,2^k+1 for k<1100 are compared with the integer definition, including the frame condition on writes.",
+         "boundary bounds on widths 8..1023, all concat tuples of <=3 operands of widths 1..3 (thorough: widths 1..4 and 4 operands), all zext/sext/trunc (n,m) pairs, reduce ops on all values "
+         "of widths 1..8 and clog2 on 1..2^17 (2^24) plus 2^k-1,2^k,2^k+1 for k<1100 are compared with the integer definition, including the frame condition on writes.",
          "Trusted: Python ints and the oracles in vt/checks/c05.py. Interior values of wide words are not covered.",
          "DESIGN.md 6.C05", "E1"),
  "C19": ("model_checking",
@@ -58,8 +58,8 @@ CHECKS = {
          "DESIGN.md 6.C07", "E1 E2"),
  "C06": ("exploration",
          "bounded exhaustive enumeration of struct type shapes x packed values vs an independent layout spec; exhaustive copy/assignment histories on two objects vs Python trees",
-         "About 900 (quick) / 7000 (thorough) bitstruct shapes (<=3 fields, nested structs, 1-d and 2-d list fields of Bits and of structs, width <= 12) are created with the "
-         "real mk_bitstruct; for every packed value (width <= 8; boundary patterns above) layout, both round trips, ==, hash, dict lookup, clone, deepcopy, @=, <<=/_flip and "
+         "About 800 (quick) / 9000 (thorough) bitstruct shapes (<=3 fields (4 thorough), nested structs up to depth 3, 1-d and 2-d list fields of Bits and of structs, width <= 12 (14; 40 for the deep shapes)) are created with the "
+         "real mk_bitstruct; for every packed value (width <= 8 (11 thorough); boundary patterns above) layout, both round trips, ==, hash, dict lookup, clone, deepcopy, @=, <<=/_flip and "
          "independence of every leaf are checked; all histories of length <= 2 (3) of assignments/copies/in-place mutations on two objects are compared with plain value trees.",
          "Trusted: vt/layout.py (40 lines). Widths above 12 and more than 3 fields are not covered.",
          "DESIGN.md 6.C06", "E1 E4"),
@@ -82,7 +82,7 @@ CHECKS = {
          "DESIGN.md 6.C13", "E1 E3"),
  "C14": ("exploration",
          "bounded exhaustive enumeration of hierarchies (member menus per level) with on-demand field/slice creation; every object's name evaluated back on the real elaborated design",
-         "Every hierarchy with <= 3 top members and <= 2 mid-level members drawn from a 15-entry menu (components, lists and 2-d lists of components, interfaces and lists of them, "
+         "Every hierarchy with <= 3 (4 thorough) top members and <= 2 (3) mid-level members drawn from 13- and 10-entry menus (components, lists and 2-d lists of components, interfaces and lists of them, "
          "method ports, Bits/struct/struct-with-list/nested-struct/list-of-struct signals, lists of signals) is elaborated twice; update blocks, connections and post-elaboration "
          "accesses create field, list-field, slice, slice-of-slice and bit signals; for every object eval(repr(o)) is o, names are unique, parent/host/level/top-level-signal agree "
          "with the name, and both elaborations give the same name sets.",
@@ -98,7 +98,7 @@ CHECKS = {
  "C16": ("model_checking",
          "exhaustive input sequences on the real simulator with VCD + text-wave passes; dump read back by an independent VCD parser and compared per signal per cycle with sampled simulator values",
          "25 designs (nets of top-level signals sharing one identifier, nets with slices, struct signals, constants tied to ports, never-changing signals, children, "
-         "100- and 200-output designs that need multi-character identifier codes) are simulated for every sequence of length 3 (4) over a 4-letter alphabet that revisits values; "
+         "100- and 200-output designs that need multi-character identifier codes) are simulated for every sequence of length 3 (5) over a 4-letter (5-letter) alphabet that revisits values; "
          "every declared variable of every scope must be present once with the right width and carry, at time 100*t, the value sampled before the edge of cycle t; clock edges and "
          "the text-wave record are checked too.",
          "Trusted: vt/vcdparse.py (90 lines). Net numbering order is controlled through the object-hash seam (4 permutations).",
@@ -116,7 +116,8 @@ CHECKS = {
          "About 1100 designs: two writes to one carrier over all access-shape pairs (whole, overlapping/adjacent/contained slices, bits, fields, nested fields, list elements with constant and "
          "variable index, struct with list field) by the same block, two comb blocks, comb+ff, comb+lambda, block+net (from input, constant, driven wire), net+net, child/parent/grand-parent "
          "positions; undriven nets, connection loops, duplicate connections, overlapping slice nets; every port rule Type 1-9 and the loop-back rule with its legal counterpart; every "
-         "assignment operator in update / update_ff on whole signals, list elements, slices, fields. elaborate() must raise the class the analysis predicts, or nothing.",
+         "assignment operator in update / update_ff on whole signals, list elements, slices, fields. elaborate() must raise the class the analysis predicts, or nothing. "
+         "Thorough adds ~760 three-writer designs (every multiset of three access shapes; three blocks / two in one block / one block / two blocks + a net) under all block orders and 6 hash permutations.",
          "Trusted: c09.analyze (per-bit driver sets, net source propagation, port-direction table). Designs with several simultaneous defects are not generated.",
          "DESIGN.md 6.C09", "E1 E2"),
  "C18": ("model_checking",
